@@ -4,9 +4,11 @@
 //!   skv-harness <prop> gen  --seed S --cases N --tier quick|thorough --out ops.txt --stats stats.json
 //!   skv-harness <prop> exec --ops ops.txt --out impl.txt
 mod c04;
+mod c05;
 mod c08;
 mod c12;
 mod rng;
+mod sched;
 mod util;
 
 use std::collections::HashMap;
@@ -63,6 +65,8 @@ fn main() {
     let rc = match (prop, cmd) {
         ("c04", "gen") => c04::gen(&args),
         ("c04", "exec") => c04::exec(&args),
+        ("c05", "gen") => c05::gen(&args),
+        ("c05", "exec") => c05::exec(&args),
         ("c08", "gen") => c08::gen(&args),
         ("c08", "exec") => c08::exec(&args),
         ("c12", "gen") => c12::gen(&args),
